@@ -282,7 +282,42 @@ theorem gen_setattr (fs : List (String × V)) (name : List Char) (value : V) :
     | error e => rfl
     | ok t => simp [objSetK, cStr, pairM, cNone]
 
+/-! ### `Policy.__init__` -/
+
+/-- a sequence of attribute assignments, each through the translated `__setattr__`; the first rejection ends it -/
+def runAssigns : V → List (List Char × V) → M
+  | o, [] => pairM cNone (pure o)
+  | o, (n, v) :: rest => callProcM (setattr_Policy o (.py (.str n)) v) fun _r o' => runAssigns o' rest
+
+/-- the context the constructor assigns: `context` if it is not `None`, else the deprecated `rules` if truthy, else `{}` -/
+def ctorContext (ctx rules : V) : V :=
+  match ctx with
+  | .py .none => if truth rules then rules else .py (.dict [])
+  | .inq Option.none => if truth rules then rules else .py (.dict [])
+  | c => c
+
+/-- **`Policy.__init__` as written in the source**: eight assignments in this order - uid, subjects, effect (a falsy one replaced by
+the deny constant), resources, actions, context (see `ctorContext`), description, and `type = None` (whose value `__setattr__`
+ignores) - each of them through `__setattr__`, the first rejection ending the construction.  This is the fixed sequence the model's
+`construct` runs (`harness/props/c10.py` feeds it in the same order). -/
+theorem gen_init (self uid subj eff res act ctx rules desc : V) :
+    init_Policy self uid subj eff res act ctx rules desc =
+      runAssigns self [("uid".toList, uid), ("subjects".toList, subj),
+        ("effect".toList, if truth eff then eff else .py (.str Generated.denyConst)), ("resources".toList, res),
+        ("actions".toList, act), ("context".toList, ctorContext ctx rules), ("description".toList, desc),
+        ("type".toList, .py .none)] := by
+  unfold init_Policy
+  simp only [pure_ok, bindM_ok, runAssigns, pyOr, cDenyConst, cNone, isNotNoneM, isNoneM, pyNot_ok, ofBool_eq, truth_bool, iteM_ok,
+    cEmptyDict]
+  by_cases he : truth eff = true <;> by_cases hr : truth rules = true <;>
+    cases ctx with
+    | py cv => cases cv <;>
+        simp only [he, hr, ctorContext, bindM_ok, Bool.not_true, Bool.not_false, Bool.false_eq_true, if_false, if_true]
+    | inq q => cases q <;>
+        simp only [he, hr, ctorContext, bindM_ok, Bool.not_true, Bool.not_false, Bool.false_eq_true, if_false, if_true]
+    | _ => simp only [he, hr, ctorContext, bindM_ok, Bool.not_false, Bool.false_eq_true, if_false, if_true]
+
 theorem translatedPolicy_covers :
-    translatedPolicy = ["_calculate_type", "_check_field_type", "__setattr__"] := by decide
+    translatedPolicy = ["_calculate_type", "_check_field_type", "__setattr__", "__init__"] := by decide
 
 end Vakt.GenEquiv
